@@ -1,4 +1,5 @@
 import Adlt.Plugins.Anon
+import Adlt.Plugins.Stage
 /-! # C19 — plugins keep the stream intact; anonymisation keeps its structure   (partial)
 
 Decoding plugins (non-verbose, SOME/IP, CAN, Muniic, rewrite) are opaque decoders; what is checked of them on every run
@@ -19,6 +20,28 @@ theorem C19_anon_format_injective (a b : Nat) (ha : a < 1000) (hb : b < 1000) (h
 
 /-- the capacity bound is sharp: the 1000th id collides with the 100th -/
 theorem C19_anon_capacity_sharp : fmt 'E' 1000 = fmt 'E' 100 := fmt_collides_beyond_999
+
+/-- the plugin stage with decoders only — plugins that never veto and keep index, reception time, ECU, payload bytes,
+    lifecycle and an existing extended header, whatever else they do and whatever state they keep — forwards exactly one
+    message per input message, in order, with those fields untouched; for every number, order and kind of such plugins -/
+theorem C19_decoders_conservative (ps : List Plg.Plugin) (hc : ∀ p ∈ ps, Plg.Conservative p) (ms : List Plg.PMsg) :
+    (Plg.pluginsProcess ps ms).length = ms.length ∧
+    ∀ k (h1 : k < (Plg.pluginsProcess ps ms).length) (h2 : k < ms.length), Plg.Keeps (Plg.pluginsProcess ps ms)[k] ms[k] := by
+  unfold Plg.pluginsProcess
+  apply Plg.stage_conservative
+  intro i hi
+  simp only [List.mem_map] at hi
+  obtain ⟨p, hp, rfl⟩ := hi
+  exact hc p hp
+
+/-- if additionally every plugin keeps the timestamp (all decoders but rewrite), one message through the plugins keeps it -/
+theorem C19_decoders_keep_timestamp (ps : List Plg.Inst) (hc : ∀ i ∈ ps, Plg.Conservative i.1) (ht : ∀ i ∈ ps, Plg.KeepsTs i.1)
+    (m : Plg.PMsg) : (Plg.through ps m).2.1.ts = m.ts := Plg.through_ts ps hc ht m
+
+/-- non-vacuity: a plugin that vetoes every second message it is handed is *not* conservative, and the stage then drops -/
+example : (Plg.pluginsProcess [{ proc := fun h m => (m, h.length % 2 == 0) }]
+    [{ index := 0, recv := 0, ecu := [], ts := 0, lifecycle := 1, payload := [], ext := none, text := none },
+     { index := 1, recv := 0, ecu := [], ts := 0, lifecycle := 1, payload := [], ext := none, text := none }]).map (·.index) = [0] := by decide
 
 /-- non-vacuity: two ECUs, the second message without extended header -/
 example : run {} [([69, 67, 85, 49], some ([65, 80, 73, 68], [67, 84, 73, 68])), ([69, 67, 85, 50], none),
